@@ -360,6 +360,18 @@ Proof.
   pose proof (Z.div_mod wait 10 ltac:(lia)). change (Z.of_nat 10) with 10%Z. lia.
 Qed.
 
+(** *** the account record is read from the CURRENT poll only: whatever earlier
+    polls left in the reused variable, Status() and NextMessageParams answer for
+    the record decoded last *)
+Lemma var_status_current v rec : var_status (decode_into v rec) = Ok rec.
+Proof. destruct rec; reflexivity. Qed.
+
+Theorem next_params_polled code w v0 recs rec :
+  next_params_var code w (fold_left decode_into (recs ++ [rec]) v0) = next_params code w rec.
+Proof.
+  rewrite fold_left_app. cbn [fold_left]. unfold next_params_var. rewrite var_status_current. reflexivity.
+Qed.
+
 (** *** history independence: whatever was called before on the same Wallet
     object, and whatever the caller did to the values it got back, every answer
     is the answer of a fresh wallet with the same parameters *)
